@@ -196,21 +196,7 @@ func runC11(c *Ctx) {
 	}
 
 	// ---- C11.7 the output file is opened truncating
-	nOpen := 0
-	for _, fn := range pkgFuncs(L, genPkg) {
-		for _, cs := range callsIn(fn) {
-			switch cs.callee {
-			case "os.Create", "os.WriteFile":
-				nOpen++
-				c.ok("C11.7", fnName(fn)+": the output is written through "+cs.callee+" (truncates an existing file)", "callee")
-			case "os.OpenFile":
-				nOpen++
-				flag, ok := constInt(cs.arg(1))
-				c.check(ok && flag&int64(os.O_TRUNC) != 0, "C11.7", fnName(fn)+":os.OpenFile-flags", L.pos(cs.instr.Pos()), "an existing (longer) output file is truncated before the new content is written", fmt.Sprintf("flags %#x", flag))
-			}
-		}
-	}
-	c.floor("C11.7", "sites that open the output file", nOpen, 1)
+	ruleOutputOpenedTruncating(c, "C11.7")
 
 	// ---- C11.6 examples equal their golden twins
 	c11Twins(c)
@@ -476,4 +462,26 @@ func c11Twins(c *Ctx) {
 	if nDoc == 0 {
 		c.ok("C11.6", "the generator never reads Doc/Comment fields (inputs equal modulo comments are interchangeable)", "no FieldAddr of a comment field in internal/kessoku")
 	}
+}
+
+// ruleOutputOpenedTruncating: wherever the generator opens its output file, an existing (longer) file is truncated: os.Create,
+// os.WriteFile, or os.OpenFile with O_TRUNC among constant flags. Without it the tail of a previous, longer output survives a
+// regeneration: the run exits 0 and the file does not compile (C04), and the result depends on what was there before (C11).
+func ruleOutputOpenedTruncating(c *Ctx, rule string) {
+	L := c.L
+	nOpen := 0
+	for _, fn := range pkgFuncs(L, genPkg) {
+		for _, cs := range callsIn(fn) {
+			switch cs.callee {
+			case "os.Create", "os.WriteFile":
+				nOpen++
+				c.ok(rule, fnName(fn)+": the output is written through "+cs.callee+" (truncates an existing file)", "callee")
+			case "os.OpenFile":
+				nOpen++
+				flag, ok := constInt(cs.arg(1))
+				c.check(ok && flag&int64(os.O_TRUNC) != 0, rule, fnName(fn)+":os.OpenFile-flags", L.pos(cs.instr.Pos()), "an existing (longer) output file is truncated before the new content is written", fmt.Sprintf("flags %#x", flag))
+			}
+		}
+	}
+	c.floor(rule, "sites that open the output file", nOpen, 1)
 }
